@@ -119,7 +119,6 @@ def lastPath : Option SOp → Option Path
     call just before created or filled (parse_loop: cif_container_create_loop, then the packets, nothing in between) -/
 def covered (last : Option SOp) : SOp → Bool
   | .mkFrame .. => false
-  | .setVal .. => false
   | .addPkt p _ => lastPath last == some p
   | _ => true
 
@@ -377,11 +376,34 @@ theorem rep_addPkt (o : Opts) (m : HMap) (w : World) (s : Store.Store) (last : O
     · rw [hA]; exact hb
     · rw [hA]; exact hopen'
 
+/-- cif_container_set_value -/
+theorem rep_setVal (o : Opts) (m : HMap) (w : World) (s : Store.Store) (last : Option SOp) (path : Path) (n : Str) (v : V) (h : Nat)
+    (hr : Rep o m w s last) (hm : m.ch path = some h) (hwf : (SOp.setVal path n v).wf) (hokr : OkR o (absS s.db).tree) :
+    let sop := Store.Op.setVal h (some (mkName o true n)) (some v)
+    Store.inContract w sop = true ∧ (Store.step w sop).2.rc = some CIF_OK ∧
+      ∃ s', Rep o m (Store.step w sop).1 s' (some (SOp.setVal path n v)) ∧
+        (absS s'.db).tree = (SOp.setVal path n v).apply o (absS s.db).tree := by
+  intro sop
+  obtain ⟨k, b, e, hpk, hb, he, h0, hid⟩ := hr.ch path h hm
+  subst hpk
+  obtain ⟨A', hspec, hinv', hblocks', htree'⟩ := sim_setVal o (absS s.db) hr.inv k b hb e.h hid n v hwf.1 hokr
+  have hin : Store.inContract w sop = true :=
+    okH_w w s hr.cifs hr.its h e he h0 (by rw [hid]; exact hasContainer_of o s hr.inv b hb.1)
+  have hst := specStep_setVal_aw (absS s.db) A' w.chs w.lhs h e _ _ he h0 hspec
+  obtain ⟨hres, hwok', s', hc', hA, hchs', hlhs', hits'⟩ := transfer w s sop _ _ _ _ hr.cifs hr.its hr.wok hin hst
+  refine ⟨hin, by rw [hres], s', ?_, by rw [hA, htree']; rfl⟩
+  refine ⟨hc', hits', hwok', by rw [hA]; exact hinv', by rw [hchs']; exact hr.nch, by rw [hlhs']; exact hr.nlh, ?_, ?_⟩
+  · intro p h' hp
+    rw [hA, hchs']
+    obtain ⟨k', b', e', hpk', hb', he', h0', hid'⟩ := hr.ch p h' hp
+    exact ⟨k', b', e', hpk', ⟨by rw [hblocks']; exact hb'.1, hb'.2⟩, he', h0', hid'⟩
+  · intro p hp; cases hp
+
 /-- **one recorded call** made in a state that meets what the parser side proves of every call (`docOk`, `wf`) and is `covered`:
     in contract, CIF_OK, and the new world represents `op.apply` of the tree -/
 theorem rep_step (o : Opts) (m : HMap) (w : World) (s : Store.Store) (last : Option SOp) (op : SOp) (sop : Store.Op) (m' : HMap)
-    (hr : Rep o m w s last) (hdoc : op.docOk o (absS s.db).tree) (hwf : op.wf) (hcov : covered last op = true)
-    (hso : storeOp o m op = some (sop, m')) :
+    (hr : Rep o m w s last) (hokr : OkR o (absS s.db).tree) (hdoc : op.docOk o (absS s.db).tree) (hwf : op.wf)
+    (hcov : covered last op = true) (hso : storeOp o m op = some (sop, m')) :
     Store.inContract w sop = true ∧ (Store.step w sop).2.rc = some CIF_OK ∧
       ∃ s', Rep o m' (Store.step w sop).1 s' (some op) ∧ (absS s'.db).tree = op.apply o (absS s.db).tree := by
   cases op with
@@ -390,7 +412,15 @@ theorem rep_step (o : Opts) (m : HMap) (w : World) (s : Store.Store) (last : Opt
     obtain ⟨rfl, rfl⟩ := hso
     exact rep_mkBlock o m w s last code len hr hdoc
   | mkFrame parent code len => cases hcov
-  | setVal path n v => cases hcov
+  | setVal path n v =>
+    simp only [storeOp] at hso
+    cases hm : m.ch path with
+    | none => rw [hm] at hso; cases hso
+    | some h =>
+      rw [hm] at hso
+      simp only [Option.some.injEq, Prod.mk.injEq] at hso
+      obtain ⟨rfl, rfl⟩ := hso
+      exact rep_setVal o m w s last path n v h hr hm hwf hokr
   | mkLoop path names =>
     simp only [storeOp] at hso
     cases hm : m.ch path with
@@ -429,16 +459,17 @@ def coveredFrom : Option SOp → List SOp → Bool
     world represents the replay of the trace on the tree -/
 theorem run_sim (o : Opts) : ∀ (tr : List SOp) (m : HMap) (w : World) (s : Store.Store) (last : Option SOp) (sops : List Store.Op),
     Rep o m w s last →
+    (∀ k : Nat, OkR o ((tr.take k).foldl (fun c op => op.apply o c) (absS s.db).tree)) →
     (∀ (k : Nat) (op : SOp), tr[k]? = some op → op.docOk o ((tr.take k).foldl (fun c op => op.apply o c) (absS s.db).tree)) →
     (∀ op ∈ tr, op.wf) → coveredFrom last tr = true → storeOpsFrom o m tr = some sops →
     Store.inContractHist w sops = true ∧ (Store.run w sops).2.all (fun r => r.rc == some 0) = true ∧
       ∃ s' m' last', Rep o m' (Store.run w sops).1 s' last' ∧
         (absS s'.db).tree = tr.foldl (fun c op => op.apply o c) (absS s.db).tree
-  | [], m, w, s, last, sops, hr, _, _, _, hso => by
+  | [], m, w, s, last, sops, hr, _, _, _, _, hso => by
     simp only [storeOpsFrom, Option.some.injEq] at hso
     subst hso
     exact ⟨rfl, rfl, s, m, last, hr, rfl⟩
-  | op :: tr, m, w, s, last, sops, hr, hdoc, hwf, hcov, hso => by
+  | op :: tr, m, w, s, last, sops, hr, hokr, hdoc, hwf, hcov, hso => by
     simp only [storeOpsFrom] at hso
     cases hop : storeOp o m op with
     | none => rw [hop] at hso; cases hso
@@ -448,8 +479,12 @@ theorem run_sim (o : Opts) : ∀ (tr : List SOp) (m : HMap) (w : World) (s : Sto
       simp only [Option.map_eq_some_iff] at hso
       obtain ⟨sops', hso', rfl⟩ := hso
       simp only [coveredFrom, Bool.and_eq_true] at hcov
-      obtain ⟨hin, hrc, s1, hr1, ht1⟩ := rep_step o m w s last op sop m1 hr (hdoc 0 op rfl) (hwf op List.mem_cons_self) hcov.1 hop
+      obtain ⟨hin, hrc, s1, hr1, ht1⟩ := rep_step o m w s last op sop m1 hr (hokr 0) (hdoc 0 op rfl) (hwf op List.mem_cons_self) hcov.1 hop
       have ih := run_sim o tr m1 (Store.step w sop).1 s1 (some op) sops' hr1
+        (fun k => by
+          have := hokr (k + 1)
+          rw [ht1]
+          simpa [List.take_succ_cons, List.foldl_cons] using this)
         (fun k op' hk => by
           have := hdoc (k + 1) op' (by simpa using hk)
           rw [ht1]
@@ -488,6 +523,7 @@ theorem parse_store_sim (o : Opts) (pol : Lexer.Policy) (units : Str) (ops : Lis
   obtain ⟨sops, hso', rfl⟩ := hso
   have hokr : OkR o ([] : Cif) := ⟨⟨by simp [normCodes], by simp [OkCs]⟩, by simp [RectCif, RectCs]⟩
   have h := run_sim o (storeTrace o pol [] units) {} (Store.step {} .cifNew).1 {} none sops (rep_start o)
+    (fun k => trace_prefix_okR o pol [] units hokr k)
     (fun k op hk => trace_calls_docOk o pol [] units hokr k op hk) (storeTrace_wf o pol [] units) hcov hso'
   obtain ⟨hin, hall, s', m', last', hr', ht'⟩ := h
   refine ⟨?_, ?_, ?_, s', ?_, ?_, ?_⟩
